@@ -18,6 +18,7 @@ func init() {
 		rules.PairLoopShape(p, r, "C05-a-loop")
 		rules.PartitionCompleteness(p, r, "C05-b")
 		rules.PartitionInputsAreRanges(p, r, "C05-b-ranges")
+		rules.PortSetPredicateVocabulary(p, r, "C05-c-exact")
 		rules.CanonicalForm(p, r, "C05-c")
 		rules.IntervalCanonicity(p, r, "C05-d")
 		rules.IntervalsFromRuntimeBounds(p, r, "C05-c-range")
